@@ -50,6 +50,9 @@ type logT struct {
 	// (spelling.go); it carries that log's key, so everything it signs is a valid STH of that log
 	aliasOf  *logT
 	spelling string
+	// restart histories (restart.go): the log belongs to the pool the successive configurations are
+	// drawn from, so `configured` changes at every restart; signature verdicts are recorded for it always
+	pool bool
 }
 
 func newLog(name string, configured bool, badKeyString bool) *logT {
@@ -206,7 +209,7 @@ func (h *harness) inspect(raw []byte, logs []*logT) *rawInfo {
 	}
 	ri.decoded, ri.p, ri.ok = &sth, p, true
 	for _, l := range logs {
-		if l.configured {
+		if l.configured || l.pool {
 			ri.verdict[l.id] = l.sv.VerifySTHSignature(sth) == nil
 		}
 	}
@@ -224,64 +227,83 @@ type instance struct {
 	srv    *httptest.Server
 	logs   []*logT
 	hung   int32 // an operation did not return: the instance is abandoned (its connection is stuck)
+	// restart histories (restart.go): the Witness value of the previous epoch, kept in use next to the
+	// new one when the configuration did not change (two instances over one database)
+	alt    *wit.Witness
+	altSrv *httptest.Server
+	dsn    string
 }
 
 func (h *harness) newInstance(mode string, logs []*logT, viaHTTP bool) *instance {
 	in := &instance{mode: mode, logs: logs}
-	var err error
 	switch mode {
 	case "memory-1conn":
-		in.db, err = sql.Open("sqlite3", ":memory:")
-		if err == nil {
-			in.db.SetMaxOpenConns(1)
-		}
+		in.dsn = ":memory:"
 	case "file-1conn": // exactly what impl.Main does
 		h.dbn++
 		in.dbfile = filepath.Join(h.dbdir, fmt.Sprintf("w%d.db", h.dbn))
-		in.db, err = sql.Open("sqlite3", in.dbfile)
-		if err == nil {
-			in.db.SetMaxOpenConns(1)
-		}
+		in.dsn = in.dbfile
 	case "file-pool", "file-pool-wal": // several connections: SQLite's own locking serialises the transactions
 		h.dbn++
 		in.dbfile = filepath.Join(h.dbdir, fmt.Sprintf("w%d.db", h.dbn))
-		dsn := "file:" + in.dbfile + "?_busy_timeout=2000"
+		in.dsn = "file:" + in.dbfile + "?_busy_timeout=2000"
 		if mode == "file-pool-wal" {
-			dsn += "&_journal_mode=WAL"
-		}
-		in.db, err = sql.Open("sqlite3", dsn)
-		if err == nil {
-			in.db.SetMaxOpenConns(6)
+			in.dsn += "&_journal_mode=WAL"
 		}
 	default:
 		panic(mode)
 	}
+	in.openDB()
+	in.w = h.newWitness(in)
+	in.wv = h.wv
+	if viaHTTP {
+		in.srv = serve(in.w)
+	}
+	return in
+}
+
+func (in *instance) openDB() {
+	var err error
+	in.db, err = sql.Open("sqlite3", in.dsn)
 	if err != nil {
 		panic(err)
 	}
+	if strings.HasPrefix(in.mode, "file-pool") {
+		in.db.SetMaxOpenConns(6)
+	} else {
+		in.db.SetMaxOpenConns(1)
+	}
+}
+
+// newWitness: witness.New over the instance's database (which may already hold a table) with the logs
+// that are configured now.
+func (h *harness) newWitness(in *instance) *wit.Witness {
 	known := map[string]ct.SignatureVerifier{}
-	for _, l := range logs {
+	for _, l := range in.logs {
 		if l.configured {
 			known[l.id] = *l.sv
 		}
 	}
-	in.w, err = wit.New(wit.Opts{DB: in.db, PrivKey: h.witnessPEM, KnownLogs: known})
+	w, err := wit.New(wit.Opts{DB: in.db, PrivKey: h.witnessPEM, KnownLogs: known})
 	if err != nil {
 		panic(err)
 	}
-	in.wv = h.wv
-	if viaHTTP {
-		r := mux.NewRouter().UseEncodedPath()
-		wit.NewServer(in.w).RegisterHandlers(r)
-		in.srv = httptest.NewServer(r)
-	}
-	return in
+	return w
+}
+
+func serve(w *wit.Witness) *httptest.Server {
+	r := mux.NewRouter().UseEncodedPath()
+	wit.NewServer(w).RegisterHandlers(r)
+	return httptest.NewServer(r)
 }
 
 func (in *instance) close() {
 	if atomic.LoadInt32(&in.hung) == 0 {
 		if in.srv != nil {
 			in.srv.Close()
+		}
+		if in.altSrv != nil {
+			in.altSrv.Close()
 		}
 		in.db.Close()
 	}
@@ -429,6 +451,8 @@ type opT struct {
 	proof [][]byte
 	fault string // NoFault | FBegin (assigned after observation)
 	desc  string
+	// restart histories: send the operation to the Witness value of the previous epoch (instance.alt)
+	viaAlt bool
 	// set by generators that KNOW the candidate is not a genuine extension of the held STH although
 	// it is signed and comes with a proof (the reason); only the direct oracle reads it
 	mustRefuse string
@@ -459,6 +483,9 @@ func (o *opT) json() interface{} {
 	}
 	if o.fault != "NoFault" {
 		m["db_fault"] = true
+	}
+	if o.viaAlt {
+		m["via"] = "the Witness value created before the last restart (same database, same configuration)"
 	}
 	return m
 }
@@ -499,15 +526,19 @@ func (in *instance) exec(o *opT, submitted map[string]bool) *obsT {
 }
 
 func (in *instance) execDirect(o *opT, ob *obsT) {
+	w := in.w
+	if o.viaAlt && in.alt != nil {
+		w = in.alt
+	}
 	switch o.kind {
 	case "update":
-		b, err := in.w.Update(context.Background(), o.log.id, o.raw, o.proof)
+		b, err := w.Update(context.Background(), o.log.id, o.raw, o.proof)
 		ob.kind, ob.class, ob.body = "rsp", classOf(err), b
 	case "getsth":
-		b, err := in.w.GetSTH(o.log.id)
+		b, err := w.GetSTH(o.log.id)
 		ob.kind, ob.class, ob.body = "rsp", classOf(err), b
 	case "getlogs":
-		ls, err := in.w.GetLogs()
+		ls, err := w.GetLogs()
 		sort.Strings(ls)
 		ob.kind, ob.logs, ob.logsErr = "logs", ls, err != nil
 	}
@@ -516,15 +547,19 @@ func (in *instance) execDirect(o *opT, ob *obsT) {
 func (in *instance) execHTTP(o *opT, ob *obsT) {
 	var rsp *http.Response
 	var err error
+	base := in.srv.URL
+	if o.viaAlt && in.altSrv != nil {
+		base = in.altSrv.URL
+	}
 	switch o.kind {
 	case "update":
 		body, _ := json.Marshal(&wit.UpdateRequest{STH: o.raw, Proof: o.proof})
-		req, _ := http.NewRequest(http.MethodPut, in.srv.URL+fmt.Sprintf(wit.HTTPUpdate, url.PathEscape(o.log.id)), bytes.NewReader(body))
+		req, _ := http.NewRequest(http.MethodPut, base+fmt.Sprintf(wit.HTTPUpdate, url.PathEscape(o.log.id)), bytes.NewReader(body))
 		rsp, err = http.DefaultClient.Do(req)
 	case "getsth":
-		rsp, err = http.Get(in.srv.URL + fmt.Sprintf(wit.HTTPGetSTH, url.PathEscape(o.log.id)))
+		rsp, err = http.Get(base + fmt.Sprintf(wit.HTTPGetSTH, url.PathEscape(o.log.id)))
 	case "getlogs":
-		rsp, err = http.Get(in.srv.URL + wit.HTTPGetLogs)
+		rsp, err = http.Get(base + wit.HTTPGetLogs)
 	}
 	if err != nil {
 		panic("http transport: " + err.Error())
